@@ -582,7 +582,14 @@ def check_consumer_self_stop(run, rule, re_, g, flag_p, fab_p, selfn):
     k_fab = '%s.is_set()' % fab_p
     watch.add(k_fab)
     k_ne, k_stop = set(), set()
-    for e in [x for n in g.nodes if n.kind in ('test', 'stmt') for x in ast.walk(n.ast)]:
+    from .util import expand_locals
+    exprs = []
+    for n in g.nodes:
+        if n.kind in ('test', 'stmt'):
+            exprs.extend(ast.walk(n.ast))
+            if n.kind == 'test':      # the simulation tests the expression with single-definition locals expanded: watch that text too
+                exprs.extend(ast.walk(expand_locals(n.ast, re_.node, params=re_.params, observers=True)))
+    for e in exprs:
         if isinstance(e, ast.Compare) and len(e.ops) == 1:
             if any(signal_const(x) == 'STOP_ACTIVE_OBJECT_SIGNAL' for x in ast.walk(e)):
                 pos = e if isinstance(e.ops[0], (ast.Eq, ast.Is)) else ast.Compare(left=e.left, ops=[ast.Eq() if isinstance(e.ops[0], ast.NotEq) else ast.Is()], comparators=e.comparators)
